@@ -25,7 +25,7 @@ CHECKS = {
     "C06": ("other", "contracts over the abstract rows for view receivers + materialisation frame + bounded derived-vs-fresh comparison",
             "Proved: row subset of views, column-step compounding, integer column on strided views, materialisation (rows preserved, fresh buffer, source not written), lazy __getitem__ dispatch. Representation independence end-to-end (every probe on a newly derived array vs a fresh one) is bounded.", "0, 11/C06"),
     "C07": ("other", "contracts (prefix-sum telescoping, shifted-prefix-sum lemma) + bounded numpy-per-row stand-in",
-            "Proved: cumsum and add.accumulate restart at every row (integer data as mathematical integers), diff plumbing (row r keeps max(L-n,0) differences of its own cells), index_array for sort. subtract/xor accumulate, sort, unique, diff values are bounded. One known finding (float accumulate).", "0, 11/C07"),
+            "Proved: cumsum and add/subtract/xor accumulate restart at every row (integer data as mathematical integers / 64-bit words), diff plumbing (row r keeps max(L-n,0) differences of its own cells), index_array for sort. sort, unique, diff values end to end are bounded. One known finding (float accumulate).", "0, 11/C07"),
     "C08": ("other", "contracts on structural functions + bounded stand-in",
             "Proved: concatenate(axis=0) for 2 and 3 operands, zeros/ones/empty_like, where, nonzero, ragged_slice window arithmetic, unravel_multi_index, _raw_broadcast (mask broadcast). concatenate(axis=1), padded matrix, subset are bounded.", "0, 11/C08"),
     "C09": ("other", "contracts (col_counts by three inductions, dtype dispatch) + bounded stand-in with dtype extremes",
@@ -33,23 +33,23 @@ CHECKS = {
     "C10": ("other", "two-state frame contracts on read-only operations + bounded differential histories",
             "Proved: 13 read-only operations on fresh receivers and 5 on lazily selected ones write no pre-existing buffer and preserve the rows; the buffer-dependence obligation on lazily selected receivers is refuted and is the recorded known finding. The history relation itself is bounded.", "0, 11/C10"),
     "C11": ("other", "contracts around the bucket structure + bounded Python-dict stand-in",
-            "Proved: hash is a bucket index for every key sign, scalar-valued lookup/refusal, assignment order, contains scatter. The bucket lookup chain, constructor and histories are bounded. One known finding (8-bit key dtype with a wider modulus).", "0, 11/C11"),
+            "Proved: hash is a bucket index for every key sign, _get_indices against its callees' contracts (refusal iff a key is absent; the offsets locate the keys), scalar-valued lookup/refusal, assignment order, contains scatter. The constructor (bucket build) and histories are bounded. One known finding (8-bit key dtype with a wider modulus).", "0, 11/C11"),
     "C12": ("other", "contract of Counter.count's state update + bounded collections.Counter stand-in",
             "Proved: which samples are looked up and values' = values + hits per flat position in all four value states (bincount contract), ravel_multi_index, hash. The bucket comparison chain and totals end-to-end are bounded.", "0, 11/C12"),
     "C13": ("proof", "contract-based deductive verification in QF_BV + linear integer arithmetic of the real pack / unpack / __getitem__ / sliding_window",
             "Every clause of the property is a discharged obligation generated from the real functions: pack (digit j of register q = element qk+j, zero beyond n, input untouched), unpack, integer and list indexing, sliding_window for every window size, for every b in {1,2,4,8,16,32} and every in-register offset (the property's own finite domain), with length, register index, positions and window size symbolic. A bounded cross-check runs in addition.", "0, 11/C13"),
     "C14": ("other", "contracts (encoder canonical form, decoder XOR scan with invariant, constructor) + bounded numpy stand-in",
-            "Proved: from_array gives canonical boundaries with adjacent runs different and run values taken at run starts; to_array decodes bit for bit (scan invariant); constructor invariants; slice windows. Canonicalisation helpers (np.delete) and the dtype matrix are bounded.", "0, 11/C14"),
+            "Proved: from_array gives canonical boundaries with adjacent runs different and run values taken at run starts; to_array decodes bit for bit (scan invariant); constructor invariants; slice windows; the canonicalisation helpers remove_empty_intervals and join_runs (np.delete contract, chain induction); concatenate. The dtype matrix is bounded.", "0, 11/C14"),
     "C15": ("other", "contracts (slice window = CPython's clamped window, position lookup, sub-range extraction) + bounded numpy stand-in",
-            "Proved: _get_slice hands exactly CPython's clamped window to _start_to_end for all 8 None/int kinds; _start_to_end returns a canonical sub-array with the dense content; _get_position. _step_subset, masks and start/stop windows are bounded.", "0, 11/C15"),
+            "Proved: _get_slice hands exactly CPython's clamped window to _start_to_end for all 8 None/int kinds; _start_to_end (scalar form) returns a canonical sub-array with the dense content; _step_subset for every non-zero step of symbolic size (factored floor division, proved callee contracts of remove_empty_intervals / join_runs); _get_position; __getitem__ / _getitem_bool dispatch for every index kind. The vector form of _start_to_end (run-length masks and start/stop windows end to end) is bounded.", "0, 11/C15"),
     "C16": ("other", "contracts (operand order, boundaries kept, any/all/max) + bounded numpy stand-in",
-            "Proved: unary / scalar ufuncs keep boundaries and apply U in operand order, operands untouched; any/all/max equal the dense ones. Binary merge, sum/mean/histogram, concatenate are bounded.", "0, 11/C16"),
+            "Proved: unary / scalar ufuncs keep boundaries and apply U in operand order, operands untouched; the binary merge _apply_binary_func for two arrays with unrelated boundaries (every position gets U(first, other) in operand order; argsort / searchsorted contracts, partition-point induction, proved callee contracts); any/all/max equal the dense ones; concatenate. sum / mean / histogram values are bounded.", "0, 11/C16"),
     "C17": ("other", "dispatch contracts (operand order, lock-step row selection) + bounded numpy stand-in",
-            "Proved: ufunc operand order for scalar / column on either side in both classes; row selection indexes boundaries and values with the same selector. Everything else is bounded (as planned).", "0, 11/C17"),
+            "Proved: ufunc operand order for scalar / column on either side in both classes; row selection indexes boundaries and values with the same selector; reduction / structure plumbing (which ragged reduction is applied to which operand). Constructors, column ranges, column sums, ravel, concatenate are bounded.", "0, 11/C17"),
     "C18": ("other", "contracts on field-wise operations with abstract fields (k = 1..3 fields unrolled, all lengths and selectors symbolic) + bounded stand-in",
             "Proved: equal-length check, __getitem__ for int / slice / index array / mask, concatenate of 2 and 3 objects, ==, astype by name, iteration, VarLenArray concatenate for 2 and 3 operands with all sizes symbolic. The number of fields / operands is concrete (unrolled), hence not claimed as proof.", "0, 11/C18"),
     "C19": ("other", "re-generation of every geometry / indexing / reduction obligation under int32 (paired-word view model) + bounded differential run",
-            "Proved under both index widths with the same contracts: all C01/C02/C05/C06 families (1266 obligations). The C01-C09 stand-ins are run under both widths and compared (bounded).", "0, 11/C19"),
+            "Proved under both index widths with the same contracts: all C01/C02/C05/C06/C07/C08/C09 geometry, indexing, reduction, scan and structural families (1500+ obligations). The C01-C09 stand-ins are run under both widths and compared (bounded).", "0, 11/C19"),
 }
 
 
